@@ -26,6 +26,489 @@ proof fn lemma_absent(fm: &FMIndex, w: Seq<u8>, iv: BiInterval)
         assert(!occurs_b(t, pos[x] as int, w));
     }
 }
+
+// ---------------- right-maximality bookkeeping ----------------
+/// every occurrence of w1 (in any text this index can stand for) is also an occurrence of w2
+pub open spec fn ext(fm: &FMIndex, w1: Seq<u8>, w2: Seq<u8>) -> bool {
+    forall|t: Seq<u8>, pos: Seq<usize>, q: int| #![trigger fmd_of(fm, t, pos), occurs_b(t, q, w1)] fmd_of(fm, t, pos) && 0 <= q < t.len() && occurs_b(t, q, w1) ==> occurs_b(t, q, w2)
+}
+/// pat[s..e] cannot be extended to the right
+pub open spec fn rmaxp(fm: &FMIndex, pat: Seq<u8>, s: int, e: int) -> bool { e == pat.len() || absent(fm, pat.subrange(s, e + 1)) }
+proof fn lemma_ext_trans(fm: &FMIndex, w1: Seq<u8>, w2: Seq<u8>, w3: Seq<u8>)
+    requires ext(fm, w1, w2), ext(fm, w2, w3)
+    ensures ext(fm, w1, w3)
+{
+    assert forall|t: Seq<u8>, pos: Seq<usize>, q: int| #![trigger fmd_of(fm, t, pos), occurs_b(t, q, w1)] fmd_of(fm, t, pos) && 0 <= q < t.len() && occurs_b(t, q, w1) implies occurs_b(t, q, w3) by {
+        assert(occurs_b(t, q, w2));
+    }
+}
+proof fn lemma_ext_prefix(fm: &FMIndex, w1: Seq<u8>, w2: Seq<u8>)
+    requires w2.len() <= w1.len(), w1.subrange(0, w2.len() as int) =~= w2
+    ensures ext(fm, w1, w2)
+{
+    assert forall|t: Seq<u8>, pos: Seq<usize>, q: int| #![trigger fmd_of(fm, t, pos), occurs_b(t, q, w1)] fmd_of(fm, t, pos) && 0 <= q < t.len() && occurs_b(t, q, w1) implies occurs_b(t, q, w2) by {
+        assert(t.subrange(q, q + w2.len()) =~= t.subrange(q, q + w1.len()).subrange(0, w2.len() as int));
+    }
+}
+proof fn lemma_occurs_prepend(t: Seq<u8>, q: int, a: u8, w: Seq<u8>)
+    requires 0 <= q < t.len()
+    ensures occurs_b(t, q, seq![a] + w) <==> (t[q] == a && occurs_b(t, q + 1, w))
+{
+    let aw = seq![a] + w; let m = w.len() as int;
+    if occurs_b(t, q, aw) {
+        assert(t.subrange(q, q + m + 1)[0] == aw[0]);
+        assert(t.subrange(q + 1, q + 1 + m) =~= aw.subrange(1, m + 1));
+        assert(aw.subrange(1, m + 1) =~= w);
+    }
+    if t[q] == a && occurs_b(t, q + 1, w) {
+        assert(t.subrange(q, q + m + 1) =~= seq![a] + t.subrange(q + 1, q + 1 + m));
+    }
+}
+proof fn lemma_ext_prepend(fm: &FMIndex, a: u8, w1: Seq<u8>, w2: Seq<u8>)
+    requires ext(fm, w1, w2), w1.len() >= 1
+    ensures ext(fm, seq![a] + w1, seq![a] + w2)
+{
+    let aw1 = seq![a] + w1;
+    assert forall|t: Seq<u8>, pos: Seq<usize>, q: int| #![trigger fmd_of(fm, t, pos), occurs_b(t, q, aw1)] fmd_of(fm, t, pos) && 0 <= q < t.len() && occurs_b(t, q, aw1) implies occurs_b(t, q, seq![a] + w2) by {
+        lemma_occurs_prepend(t, q, a, w1); lemma_occurs_prepend(t, q, a, w2);
+        assert(occurs_b(t, q + 1, w1));
+    }
+}
+proof fn lemma_absent_ext(fm: &FMIndex, w1: Seq<u8>, w2: Seq<u8>)
+    requires ext(fm, w1, w2), absent(fm, w2)
+    ensures absent(fm, w1)
+{
+    assert forall|t: Seq<u8>, pos: Seq<usize>, q: int| #[trigger] fmd_of(fm, t, pos) && 0 <= q < t.len() implies !#[trigger] occurs_b(t, q, w1) by {
+        if occurs_b(t, q, w1) { assert(occurs_b(t, q, w2)); }
+    }
+}
+proof fn lemma_absent_gives_ext(fm: &FMIndex, w1: Seq<u8>, w2: Seq<u8>)
+    requires absent(fm, w1)
+    ensures ext(fm, w1, w2)
+{ }
+proof fn lemma_absent_prepend(fm: &FMIndex, a: u8, w: Seq<u8>)
+    requires absent(fm, w), w.len() >= 1
+    ensures absent(fm, seq![a] + w)
+{
+    let aw = seq![a] + w;
+    assert forall|t: Seq<u8>, pos: Seq<usize>, q: int| #[trigger] fmd_of(fm, t, pos) && 0 <= q < t.len() implies !#[trigger] occurs_b(t, q, aw) by {
+        lemma_occurs_prepend(t, q, a, w);
+        if occurs_b(t, q, aw) { assert(!occurs_b(t, q + 1, w)); }
+    }
+}
+/// nested words whose exact intervals have the same non-zero size have the same occurrences
+proof fn lemma_same_size(fm: &FMIndex, w1: Seq<u8>, iv1: BiInterval, w2: Seq<u8>, iv2: BiInterval)
+    requires exact(fm, w1, iv1), exact(fm, w2, iv2), w1.len() <= w2.len(), w2.subrange(0, w1.len() as int) =~= w1, iv1.sz() == iv2.sz(), iv1.sz() >= 1
+    ensures ext(fm, w1, w2)
+{
+    assert forall|t: Seq<u8>, pos: Seq<usize>, q: int| #![trigger fmd_of(fm, t, pos), occurs_b(t, q, w1)] fmd_of(fm, t, pos) && 0 <= q < t.len() && occurs_b(t, q, w1) implies occurs_b(t, q, w2) by {
+        assert(bi_ok(t, pos, w1, iv1.lo(), iv1.lo_rev(), iv1.sz()));
+        assert(bi_ok(t, pos, w2, iv2.lo(), iv2.lo_rev(), iv2.sz()));
+        let n = t.len() as int;
+        assert(hits(pos, n, q));
+        let x = choose|x: int| 0 <= x < n && #[trigger] pos[x] == q;
+        assert(occurs_b(t, pos[x] as int, w1));
+        // the first row of w2 is a row of w1, and so is the last: equal sizes force equal bounds
+        let y0 = iv2.lo(); let y1 = iv2.lo() + iv2.sz() - 1;
+        assert(occurs_b(t, pos[y0] as int, w2)); assert(occurs_b(t, pos[y1] as int, w2));
+        assert(t.subrange(pos[y0] as int, pos[y0] as int + w1.len()) =~= t.subrange(pos[y0] as int, pos[y0] as int + w2.len()).subrange(0, w1.len() as int));
+        assert(t.subrange(pos[y1] as int, pos[y1] as int + w1.len()) =~= t.subrange(pos[y1] as int, pos[y1] as int + w2.len()).subrange(0, w1.len() as int));
+        assert(occurs_b(t, pos[y0] as int, w1)); assert(occurs_b(t, pos[y1] as int, w1));
+        assert(occurs_b(t, pos[x] as int, w2));
+    }
+}
+/// the work list at start s, longest first: match lengths never increase; the longest entry is right-maximal at s; every occurrence of an
+/// entry extended by one symbol extends all the way to the next longer entry
+#[verifier::opaque]
+pub open spec fn chain_ok(fm: &FMIndex, pat: Seq<u8>, s: int, lst: Seq<(BiInterval, usize)>) -> bool {
+    &&& forall|x: int, y: int| 0 <= x < y < lst.len() ==> (#[trigger] lst[x]).1 >= (#[trigger] lst[y]).1
+    &&& forall|x: int| 0 <= x < lst.len() ==> (#[trigger] lst[x]).1 >= 1 || lst.len() == 1
+    &&& (lst.len() >= 1 && lst[0].1 >= 1) ==> rmaxp(fm, pat, s, s + lst[0].1)
+    &&& forall|x: int| 1 <= x < lst.len() ==> s + (#[trigger] lst[x]).1 + 1 <= pat.len()
+            && ext(fm, pat.subrange(s, s + lst[x].1 + 1), pat.subrange(s, s + lst[x - 1].1))
+}
+/// what an entry of length ml at start k+1 needs in order to be appended (one symbol longer) to the list cur at start k
+pub open spec fn join_req(fm: &FMIndex, pat: Seq<u8>, k: int, cur: Seq<(BiInterval, usize)>, ml: int) -> bool {
+    let e = k + 1 + ml;
+    if cur.len() == 0 { rmaxp(fm, pat, k, e) }
+    else { cur[cur.len() - 1].1 >= ml + 1 && ext(fm, pat.subrange(k, e + 1), pat.subrange(k, k + cur[cur.len() - 1].1)) }
+}
+proof fn lemma_chain_empty(fm: &FMIndex, pat: Seq<u8>, k: int)
+    ensures chain_ok(fm, pat, k, Seq::<(BiInterval, usize)>::empty())
+{ reveal(chain_ok); }
+proof fn lemma_chain_facts(fm: &FMIndex, pat: Seq<u8>, s: int, lst: Seq<(BiInterval, usize)>)
+    requires chain_ok(fm, pat, s, lst)
+    ensures forall|x: int, y: int| 0 <= x < y < lst.len() ==> (#[trigger] lst[x]).1 >= (#[trigger] lst[y]).1,
+        (lst.len() >= 1 && lst[0].1 >= 1) ==> rmaxp(fm, pat, s, s + lst[0].1),
+        forall|x: int| 0 <= x < lst.len() ==> (#[trigger] lst[x]).1 >= 1 || lst.len() == 1,
+        forall|x: int| 1 <= x < lst.len() ==> s + (#[trigger] lst[x]).1 + 1 <= pat.len(),
+{ reveal(chain_ok); }
+proof fn lemma_chain_push(fm: &FMIndex, pat: Seq<u8>, k: int, c0: Seq<(BiInterval, usize)>, nw: (BiInterval, usize))
+    requires chain_ok(fm, pat, k, c0), nw.1 >= 1, join_req(fm, pat, k, c0, nw.1 - 1), c0.len() >= 1 ==> k + nw.1 + 1 <= pat.len()
+    ensures chain_ok(fm, pat, k, c0.push(nw))
+{
+    reveal(chain_ok);
+    let c1 = c0.push(nw); let m = c0.len() as int;
+    assert forall|y: int, z: int| 0 <= y < z < c1.len() implies (#[trigger] c1[y]).1 >= (#[trigger] c1[z]).1 by {
+        assert(c1[y] == c0[y]);
+        if z < m { assert(c1[z] == c0[z]); } else if y < m - 1 { assert(c0[y].1 >= c0[m - 1].1); }
+    }
+    assert forall|y: int| 0 <= y < c1.len() implies (#[trigger] c1[y]).1 >= 1 || c1.len() == 1 by { if y < m { assert(c1[y] == c0[y]); if y < m - 1 { assert(c0[y].1 >= c0[m - 1].1); } } }
+    assert forall|y: int| 1 <= y < c1.len() implies k + (#[trigger] c1[y]).1 + 1 <= pat.len() && ext(fm, pat.subrange(k, k + c1[y].1 + 1), pat.subrange(k, k + c1[y - 1].1)) by {
+        if y < m { assert(c1[y] == c0[y] && c1[y - 1] == c0[y - 1]); } else { assert(c1[y - 1] == c0[m - 1]); }
+    }
+    if m >= 1 { assert(c1[0] == c0[0]); }
+}
+/// first requirement of a round: the longest entry stays right-maximal when the start moves left
+proof fn lemma_join_first(fm: &FMIndex, pat: Seq<u8>, k: int, pv: Seq<(BiInterval, usize)>)
+    requires chain_ok(fm, pat, k + 1, pv), pv.len() >= 1, pv[0].1 >= 1, 0 <= k, k + 1 + pv[0].1 <= pat.len()
+    ensures join_req(fm, pat, k, Seq::<(BiInterval, usize)>::empty(), pv[0].1 as int)
+{
+    reveal(chain_ok);
+    let e = k + 1 + pv[0].1;
+    if e < pat.len() {
+        lemma_absent_prepend(fm, pat[k], pat.subrange(k + 1, e + 1));
+        assert(seq![pat[k]] + pat.subrange(k + 1, e + 1) =~= pat.subrange(k, e + 1));
+    }
+}
+/// requirement of the next entry after entry x has been pushed (c1 = c0 + [(fwd, ml+1)]), has failed (fwd empty) or has been dropped
+/// (fwd as large as the last entry kept)
+proof fn lemma_join_next(fm: &FMIndex, pat: Seq<u8>, ii: int, k: int, pv: Seq<(BiInterval, usize)>, x: int, c0: Seq<(BiInterval, usize)>, c1: Seq<(BiInterval, usize)>, fwd: BiInterval)
+    requires 0 <= k, chain_ok(fm, pat, k + 1, pv), 0 <= x, x + 1 < pv.len(), pv[x + 1].1 >= 1, k + 1 + pv[x].1 <= pat.len(), pat.len() < 0x7fff_ffff_fff0,
+        exact(fm, pat.subrange(k, k + 1 + pv[x].1), fwd),
+        forall|y: int| 0 <= y < c0.len() ==> elem_ok(fm, pat, ii, k, #[trigger] c0[y]),
+        c0.len() >= 1 ==> c0[c0.len() - 1].1 >= pv[x].1 + 1,
+        c1 == c0.push((fwd, (pv[x].1 + 1) as usize)) || (c1 == c0 && (fwd.sz() == 0 || (c0.len() >= 1 && fwd.sz() == c0[c0.len() - 1].0.sz()))),
+        fwd.sz() >= 0,
+    ensures join_req(fm, pat, k, c1, pv[x + 1].1 as int)
+{
+    reveal(chain_ok);
+    let s = k + 1; let a = pat[k]; let ml = pv[x].1 as int; let e = s + ml; let ml1 = pv[x + 1].1 as int; let e1 = s + ml1;
+    assert(pv[x].1 >= pv[x + 1].1);
+    let aw = pat.subrange(k, e);
+    let u1 = pat.subrange(s, e1 + 1); let u2 = pat.subrange(s, e);
+    assert(ext(fm, u1, u2)) by { assert(ext(fm, pat.subrange(s, s + pv[x + 1].1 + 1), pat.subrange(s, s + pv[x + 1 - 1].1))); }
+    let v1 = pat.subrange(k, e1 + 1);
+    assert(e1 + 1 <= pat.len());
+    lemma_ext_prepend(fm, a, u1, u2);
+    assert(seq![a] + u1 =~= v1);
+    assert(seq![a] + u2 =~= aw);
+    assert(ext(fm, v1, aw));
+    if c1 == c0 {
+        if fwd.sz() == 0 {
+            lemma_absent(fm, aw, fwd);
+            lemma_absent_ext(fm, v1, aw);
+            if c0.len() >= 1 { lemma_absent_gives_ext(fm, v1, pat.subrange(k, k + c0[c0.len() - 1].1)); }
+        } else {
+            let c = c0[c0.len() - 1]; let wc = pat.subrange(k, k + c.1);
+            assert(elem_ok(fm, pat, ii, k, c));
+            assert(wc.subrange(0, aw.len() as int) =~= aw);
+            lemma_same_size(fm, aw, fwd, wc, c.0);
+            lemma_ext_trans(fm, v1, aw, wc);
+        }
+    } else {
+        assert(c1[c1.len() - 1] == (fwd, (pv[x].1 + 1) as usize));
+    }
+}
+/// the forward list (shortest first) while the current word has length cur: every occurrence of a recorded word extended by one
+/// symbol extends to the next recorded word, and those of the last recorded one to the current word
+#[verifier::opaque]
+pub open spec fn fwd_chain(fm: &FMIndex, pat: Seq<u8>, i: int, lst: Seq<(BiInterval, usize)>, cur: int) -> bool {
+    &&& i + cur <= pat.len()
+    &&& forall|x: int, y: int| 0 <= x < y < lst.len() ==> (#[trigger] lst[x]).1 < (#[trigger] lst[y]).1
+    &&& forall|x: int| 0 <= x < lst.len() ==> 1 <= (#[trigger] lst[x]).1 < cur
+    &&& forall|x: int| 0 <= x < lst.len() - 1 ==> ext(fm, pat.subrange(i, i + (#[trigger] lst[x]).1 + 1), pat.subrange(i, i + lst[x + 1].1))
+    &&& lst.len() >= 1 ==> ext(fm, pat.subrange(i, i + lst[lst.len() - 1].1 + 1), pat.subrange(i, i + cur))
+}
+proof fn lemma_fwd_empty(fm: &FMIndex, pat: Seq<u8>, i: int, cur: int)
+    requires i + cur <= pat.len()
+    ensures fwd_chain(fm, pat, i, Seq::<(BiInterval, usize)>::empty(), cur)
+{ reveal(fwd_chain); }
+proof fn lemma_fwd_push(fm: &FMIndex, pat: Seq<u8>, i: int, c0: Seq<(BiInterval, usize)>, iv: BiInterval, ml: usize)
+    requires fwd_chain(fm, pat, i, c0, ml as int), ml >= 1, i + ml + 1 <= pat.len()
+    ensures fwd_chain(fm, pat, i, c0.push((iv, ml)), ml + 1)
+{
+    reveal(fwd_chain);
+    let c1 = c0.push((iv, ml)); let m = c0.len() as int;
+    let wa = pat.subrange(i, i + ml + 1);
+    lemma_ext_prefix(fm, wa, wa);
+    assert forall|x: int| 0 <= x < c1.len() - 1 implies ext(fm, pat.subrange(i, i + (#[trigger] c1[x]).1 + 1), pat.subrange(i, i + c1[x + 1].1)) by {
+        if x < m - 1 { assert(c1[x] == c0[x] && c1[x + 1] == c0[x + 1]); } else { assert(c1[x] == c0[x]); }
+    }
+    assert forall|x: int, y: int| 0 <= x < y < c1.len() implies (#[trigger] c1[x]).1 < (#[trigger] c1[y]).1 by { assert(c1[x] == c0[x]); if y < m { assert(c1[y] == c0[y]); } }
+    assert forall|x: int| 0 <= x < c1.len() implies 1 <= (#[trigger] c1[x]).1 < ml + 1 by { if x < m { assert(c1[x] == c0[x]); } }
+}
+proof fn lemma_fwd_same(fm: &FMIndex, pat: Seq<u8>, i: int, c0: Seq<(BiInterval, usize)>, ml: int, iv: BiInterval, fwd: BiInterval)
+    requires fwd_chain(fm, pat, i, c0, ml), ml >= 1, i + ml + 1 <= pat.len(), 0 <= i,
+        exact(fm, pat.subrange(i, i + ml), iv), exact(fm, pat.subrange(i, i + ml + 1), fwd), iv.sz() == fwd.sz(), iv.sz() >= 1
+    ensures fwd_chain(fm, pat, i, c0, ml + 1)
+{
+    reveal(fwd_chain);
+    let w = pat.subrange(i, i + ml); let wa = pat.subrange(i, i + ml + 1);
+    assert(wa.subrange(0, w.len() as int) =~= w);
+    lemma_same_size(fm, w, iv, wa, fwd);
+    if c0.len() >= 1 { lemma_ext_trans(fm, pat.subrange(i, i + c0[c0.len() - 1].1 + 1), w, wa); }
+}
+/// the forward list plus the final interval, reversed, is a work list at start i
+proof fn lemma_fwd_to_chain(fm: &FMIndex, pat: Seq<u8>, i: int, c1: Seq<(BiInterval, usize)>, iv: BiInterval, ml: usize, brk: bool, rv: Seq<(BiInterval, usize)>)
+    requires fwd_chain(fm, pat, i, c1, ml + (if brk { 1int } else { 0int })), 0 <= i,
+        ml >= 1 ==> rmaxp(fm, pat, i, i + ml), ml == 0 ==> c1.len() == 0,
+        brk && ml >= 1 ==> c1.len() >= 1 && c1[c1.len() - 1].1 == ml,
+        rv == c1.push((iv, ml)).reverse(),
+    ensures chain_ok(fm, pat, i, rv), forall|x: int| 0 <= x < rv.len() ==> #[trigger] rv[x] == c1.push((iv, ml))[rv.len() - 1 - x], rv.len() == c1.len() + 1
+{
+    reveal(fwd_chain); reveal(chain_ok);
+    let c2 = c1.push((iv, ml)); let n = rv.len() as int;
+    assert forall|x: int| 0 <= x < n implies #[trigger] rv[x] == c2[n - 1 - x] by { }
+    assert forall|x: int, y: int| 0 <= x < y < n implies (#[trigger] rv[x]).1 >= (#[trigger] rv[y]).1 by {
+        assert(c2[n - 1 - y] == c1[n - 1 - y]);
+        if x > 0 { assert(c2[n - 1 - x] == c1[n - 1 - x]); }
+    }
+    assert forall|x: int| 0 <= x < n implies (#[trigger] rv[x]).1 >= 1 || n == 1 by { if x > 0 { assert(c2[n - 1 - x] == c1[n - 1 - x]); } }
+    assert forall|x: int| 1 <= x < n implies i + (#[trigger] rv[x]).1 + 1 <= pat.len() && ext(fm, pat.subrange(i, i + rv[x].1 + 1), pat.subrange(i, i + rv[x - 1].1)) by {
+        assert(c2[n - 1 - x] == c1[n - 1 - x]);
+        if x >= 2 { assert(c2[n - x] == c1[n - x]); }
+        else if brk {
+            let e = pat.subrange(i, i + ml + 1);
+            assert(e.subrange(0, ml as int) =~= pat.subrange(i, i + ml));
+            lemma_ext_prefix(fm, e, pat.subrange(i, i + ml));
+        }
+    }
+}
+
+// ---------------- completeness bookkeeping ----------------
+/// pat[p..e] is a supermaximal exact match that covers position i and has length at least l
+#[verifier::opaque]
+pub open spec fn tgt(fm: &FMIndex, pat: Seq<u8>, i: int, l: int, p: int, e: int) -> bool {
+    &&& 0 <= p <= i < e <= pat.len() && e - p >= l
+    &&& !absent(fm, pat.subrange(p, e))
+    &&& p == 0 || absent(fm, pat.subrange(p - 1, e))
+    &&& rmaxp(fm, pat, p, e)
+}
+pub open spec fn recorded(lst: Seq<(BiInterval, usize)>, from: int, m: int) -> bool { exists|y: int| from <= y < lst.len() && 0 <= y && (#[trigger] lst[y]).1 == m }
+pub open spec fn reported(ms: Seq<(BiInterval, usize, usize)>, p: int, len: int) -> bool { exists|y: int| 0 <= y < ms.len() && (#[trigger] ms[y]).1 == p && ms[y].2 == len }
+/// a sub-word of a word that occurs occurs
+proof fn lemma_absent_sub(fm: &FMIndex, pat: Seq<u8>, p: int, e: int, p2: int, e2: int)
+    requires 0 <= p <= p2 < e2 <= e <= pat.len(), absent(fm, pat.subrange(p2, e2))
+    ensures absent(fm, pat.subrange(p, e))
+{
+    let w = pat.subrange(p, e); let w2 = pat.subrange(p2, e2);
+    assert forall|t: Seq<u8>, pos: Seq<usize>, q: int| #[trigger] fmd_of(fm, t, pos) && 0 <= q < t.len() implies !#[trigger] occurs_b(t, q, w) by {
+        if occurs_b(t, q, w) {
+            assert(t.subrange(q + (p2 - p), q + (p2 - p) + w2.len()) =~= t.subrange(q, q + w.len()).subrange(p2 - p, e2 - p));
+            assert(w.subrange(p2 - p, e2 - p) =~= w2);
+            assert(occurs_b(t, q + (p2 - p), w2));
+        }
+    }
+}
+/// if every occurrence of pat[i..e] continues with pat[e], so does every occurrence of pat[p..e] (p <= i)
+proof fn lemma_glue_ext(fm: &FMIndex, pat: Seq<u8>, p: int, i: int, e: int, e2: int)
+    requires 0 <= p <= i < e < e2 <= pat.len(), ext(fm, pat.subrange(i, e), pat.subrange(i, e2))
+    ensures ext(fm, pat.subrange(p, e), pat.subrange(p, e2))
+{
+    let w = pat.subrange(p, e); let w2 = pat.subrange(p, e2); let u = pat.subrange(i, e); let u2 = pat.subrange(i, e2);
+    assert forall|t: Seq<u8>, pos: Seq<usize>, q: int| #![trigger fmd_of(fm, t, pos), occurs_b(t, q, w)] fmd_of(fm, t, pos) && 0 <= q < t.len() && occurs_b(t, q, w) implies occurs_b(t, q, w2) by {
+        let d = i - p;
+        assert(t.subrange(q + d, q + d + u.len()) =~= t.subrange(q, q + w.len()).subrange(d, e - p));
+        assert(w.subrange(d, e - p) =~= u);
+        assert(occurs_b(t, q + d, u));
+        assert(occurs_b(t, q + d, u2));
+        assert(t.subrange(q, q + w2.len()) =~= w2) by {
+            assert forall|z: int| 0 <= z < w2.len() implies t[q + z] == w2[z] by {
+                if z < e - p { assert(t.subrange(q, q + w.len())[z] == w[z]); } else { assert(t.subrange(q + d, q + d + u2.len())[z - d] == u2[z - d]); }
+            }
+        }
+    }
+}
+/// an exact interval of a word that occurs is not empty; of a word that does not occur, it is
+proof fn lemma_exact_size(fm: &FMIndex, w: Seq<u8>, iv: BiInterval)
+    requires exact(fm, w, iv), exists|t: Seq<u8>, pos: Seq<usize>| fmd_of(fm, t, pos)
+    ensures absent(fm, w) <==> iv.sz() == 0, iv.sz() >= 0
+{
+    let (t, pos) = choose|t: Seq<u8>, pos: Seq<usize>| fmd_of(fm, t, pos);
+    assert(bi_ok(t, pos, w, iv.lo(), iv.lo_rev(), iv.sz()));
+    if iv.sz() == 0 { lemma_absent(fm, w, iv); }
+    else { assert(occurs_b(t, pos[iv.lo()] as int, w)); }
+}
+
+/// forward phase: every length at which some occurrence of pat[i..i+m] does not continue with the next pattern symbol has been recorded
+#[verifier::opaque]
+pub open spec fn fwd_rec(fm: &FMIndex, pat: Seq<u8>, i: int, lst: Seq<(BiInterval, usize)>, cur: int) -> bool {
+    forall|m: int| 1 <= m < cur && !#[trigger] ext(fm, pat.subrange(i, i + m), pat.subrange(i, i + m + 1)) ==> recorded(lst, 0, m)
+}
+proof fn lemma_fwd_rec_empty(fm: &FMIndex, pat: Seq<u8>, i: int, lst: Seq<(BiInterval, usize)>, cur: int)
+    requires cur <= 1
+    ensures fwd_rec(fm, pat, i, lst, cur)
+{ reveal(fwd_rec); }
+proof fn lemma_fwd_rec_push(fm: &FMIndex, pat: Seq<u8>, i: int, c0: Seq<(BiInterval, usize)>, iv: BiInterval, ml: usize)
+    requires fwd_rec(fm, pat, i, c0, ml as int)
+    ensures fwd_rec(fm, pat, i, c0.push((iv, ml)), ml + 1)
+{
+    reveal(fwd_rec);
+    let c1 = c0.push((iv, ml));
+    assert forall|m: int| 1 <= m < ml + 1 && !#[trigger] ext(fm, pat.subrange(i, i + m), pat.subrange(i, i + m + 1)) implies recorded(c1, 0, m) by {
+        if m < ml { let y = choose|y: int| 0 <= y < c0.len() && 0 <= y && (#[trigger] c0[y]).1 == m; assert(c1[y] == c0[y]); }
+        else { assert(c1[c0.len() as int].1 == m); }
+    }
+}
+proof fn lemma_fwd_rec_same(fm: &FMIndex, pat: Seq<u8>, i: int, c0: Seq<(BiInterval, usize)>, ml: int)
+    requires fwd_rec(fm, pat, i, c0, ml), ext(fm, pat.subrange(i, i + ml), pat.subrange(i, i + ml + 1))
+    ensures fwd_rec(fm, pat, i, c0, ml + 1)
+{ reveal(fwd_rec); }
+pub open spec fn c1_inv(fm: &FMIndex, pat: Seq<u8>, i: int, l: int, k: int, lst: Seq<(BiInterval, usize)>) -> bool {
+    forall|p: int, e: int| #[trigger] tgt(fm, pat, i, l, p, e) && p <= k ==> recorded(lst, 0, e - k)
+}
+pub open spec fn c2_inv(fm: &FMIndex, pat: Seq<u8>, i: int, l: int, k: int, ms: Seq<(BiInterval, usize, usize)>) -> bool {
+    forall|p: int, e: int| #[trigger] tgt(fm, pat, i, l, p, e) && p > k ==> reported(ms, p, e - p)
+}
+pub open spec fn i1_inv(fm: &FMIndex, pat: Seq<u8>, i: int, l: int, k: int, pv: Seq<(BiInterval, usize)>, x: int, cur: Seq<(BiInterval, usize)>) -> bool {
+    forall|p: int, e: int| #[trigger] tgt(fm, pat, i, l, p, e) && p <= k ==> recorded(cur, 0, e - k) || recorded(pv, x, e - (k + 1))
+}
+pub open spec fn i3_inv(fm: &FMIndex, pat: Seq<u8>, i: int, l: int, s: int, pv: Seq<(BiInterval, usize)>, x: int, ms: Seq<(BiInterval, usize, usize)>) -> bool {
+    forall|e: int| #[trigger] tgt(fm, pat, i, l, s, e) ==> (x == 0 && recorded(pv, 0, e - s)) || reported(ms, s, e - s)
+}
+/// every supermaximal match covering i has its end recorded by the forward phase
+proof fn lemma_fwd_targets(fm: &FMIndex, pat: Seq<u8>, i: int, l: int, c1: Seq<(BiInterval, usize)>, iv: BiInterval, ml: usize, brk: bool, rv: Seq<(BiInterval, usize)>)
+    requires fwd_rec(fm, pat, i, c1, ml + (if brk { 1int } else { 0int })), rv == c1.push((iv, ml)).reverse(), 0 <= i < pat.len(), i + ml <= pat.len(),
+        ml >= 1 ==> rmaxp(fm, pat, i, i + ml), ml == 0 ==> absent(fm, pat.subrange(i, i + 1)),
+    ensures c1_inv(fm, pat, i, l, i, rv)
+{
+    let c2 = c1.push((iv, ml)); let n = rv.len() as int;
+    assert forall|x: int| 0 <= x < n implies #[trigger] rv[x] == c2[n - 1 - x] by { }
+    assert forall|p: int, e: int| #[trigger] tgt(fm, pat, i, l, p, e) && p <= i implies recorded(rv, 0, e - i) by {
+        reveal(tgt); reveal(fwd_rec);
+        let m = e - i;
+        if ml == 0 { lemma_absent_sub(fm, pat, p, e, i, i + 1); assert(false); }
+        if m > ml { lemma_absent_sub(fm, pat, p, e, i, i + ml + 1); assert(false); }
+        if m == ml { assert(rv[0] == c2[n - 1]); assert(rv[0].1 == m); }
+        else {
+            if ext(fm, pat.subrange(i, e), pat.subrange(i, e + 1)) {
+                lemma_glue_ext(fm, pat, p, i, e, e + 1);
+                lemma_absent_ext(fm, pat.subrange(p, e), pat.subrange(p, e + 1));
+                assert(false);
+            }
+            assert(i + m == e && i + m + 1 == e + 1);
+            assert(!ext(fm, pat.subrange(i, i + m), pat.subrange(i, i + m + 1)));
+            assert(recorded(c1, 0, m));
+            let y = choose|y: int| 0 <= y < c1.len() && 0 <= y && (#[trigger] c1[y]).1 == m;
+            assert(c2[y] == c1[y]);
+            assert(rv[n - 1 - y] == c2[y]);
+            assert(rv[n - 1 - y].1 == m);
+        }
+    }
+}
+proof fn lemma_reported_push(ms: Seq<(BiInterval, usize, usize)>, nw: (BiInterval, usize, usize), p: int, len: int)
+    requires reported(ms, p, len)
+    ensures reported(ms.push(nw), p, len)
+{
+    let y = choose|y: int| 0 <= y < ms.len() && (#[trigger] ms[y]).1 == p && ms[y].2 == len;
+    assert(ms.push(nw)[y] == ms[y]);
+}
+/// start of a round
+proof fn lemma_round_start(fm: &FMIndex, pat: Seq<u8>, i: int, l: int, k: int, pv: Seq<(BiInterval, usize)>, ms: Seq<(BiInterval, usize, usize)>)
+    requires c1_inv(fm, pat, i, l, k + 1, pv), c2_inv(fm, pat, i, l, k + 1, ms)
+    ensures i1_inv(fm, pat, i, l, k, pv, 0, Seq::<(BiInterval, usize)>::empty()), i3_inv(fm, pat, i, l, k + 1, pv, 0, ms)
+{ }
+/// end of a round: what is left in curr carries all the matches that start further left; everything starting at k+1 or later is reported
+proof fn lemma_round_end(fm: &FMIndex, pat: Seq<u8>, i: int, l: int, k: int, pv: Seq<(BiInterval, usize)>, cur: Seq<(BiInterval, usize)>, ms: Seq<(BiInterval, usize, usize)>)
+    requires k >= 0 ==> i1_inv(fm, pat, i, l, k, pv, pv.len() as int, cur), c2_inv(fm, pat, i, l, k + 1, ms), i3_inv(fm, pat, i, l, k + 1, pv, pv.len() as int, ms), pv.len() >= 1, k >= -1
+    ensures k >= 0 ==> c1_inv(fm, pat, i, l, k, cur), c2_inv(fm, pat, i, l, k, ms),
+        cur.len() == 0 ==> forall|p: int, e: int| #[trigger] tgt(fm, pat, i, l, p, e) ==> reported(ms, p, e - p),
+{
+    assert forall|p: int, e: int| #[trigger] tgt(fm, pat, i, l, p, e) && p > k implies reported(ms, p, e - p) by { }
+    if cur.len() == 0 {
+        assert forall|p: int, e: int| #[trigger] tgt(fm, pat, i, l, p, e) implies reported(ms, p, e - p) by {
+            if p <= k { if k >= 0 { assert(recorded(cur, 0, e - k) || recorded(pv, pv.len() as int, e - (k + 1))); } else { reveal(tgt); } }
+        }
+    }
+}
+/// one entry of a round
+proof fn lemma_round_step(fmd: &FMDIndex, pat: Seq<u8>, i: int, l: int, k: int, j: int, pv: Seq<(BiInterval, usize)>, x: int,
+        c0: Seq<(BiInterval, usize)>, c1: Seq<(BiInterval, usize)>, fwd: BiInterval, ms0: Seq<(BiInterval, usize, usize)>, ms1: Seq<(BiInterval, usize, usize)>)
+    requires -1 <= k < i < pat.len(), pat.len() < 0x7fff_ffff_fff0, 0 <= x < pv.len(), l >= 1,
+        exists|t: Seq<u8>, pos: Seq<usize>| fmd_of(fmd.fm(), t, pos),
+        forall|y: int| 0 <= y < pv.len() ==> elem_ok(fmd.fm(), pat, i, k + 1, #[trigger] pv[y]),
+        chain_ok(fmd.fm(), pat, k + 1, pv),
+        k >= 0 ==> forall|y: int| 0 <= y < c0.len() ==> elem_ok(fmd.fm(), pat, i, k, #[trigger] c0[y]),
+        (k >= 0 && pv[x].1 >= 1) ==> exact(fmd.fm(), pat.subrange(k, k + 1 + pv[x].1), fwd),
+        (k >= 0 && pv[x].1 >= 1) ==> join_req(fmd.fm(), pat, k, c0, pv[x].1 as int),
+        fwd.sz() >= 0, c0.len() <= x, x == 0 ==> k < j,
+        // what the code did with this entry
+        ({ let last_size = if c0.len() == 0 { -1 } else { c0[c0.len() - 1].0.sz() };
+           if fwd.sz() != 0 && fwd.sz() != last_size { c1 == c0.push((fwd, (pv[x].1 + 1) as usize)) } else { c1 == c0 } }),
+        if (fwd.sz() == 0 || k == -1) && c0.len() == 0 && k < j && pv[x].1 >= l { ms1 == ms0.push((pv[x].0, (k + 1) as usize, pv[x].1)) } else { ms1 == ms0 },
+        k >= 0 ==> i1_inv(fmd.fm(), pat, i, l, k, pv, x, c0), c2_inv(fmd.fm(), pat, i, l, k + 1, ms0), i3_inv(fmd.fm(), pat, i, l, k + 1, pv, x, ms0),
+    ensures k >= 0 ==> i1_inv(fmd.fm(), pat, i, l, k, pv, x + 1, c1), c2_inv(fmd.fm(), pat, i, l, k + 1, ms1), i3_inv(fmd.fm(), pat, i, l, k + 1, pv, x + 1, ms1),
+{
+    let fm = fmd.fm(); let s = k + 1; let ml = pv[x].1 as int; let e0 = s + ml;
+    lemma_chain_facts(fm, pat, s, pv);
+    assert(elem_ok(fm, pat, i, s, pv[x]));
+    // reports persist
+    assert forall|p: int, e: int| #[trigger] tgt(fm, pat, i, l, p, e) && p > s implies reported(ms1, p, e - p) by {
+        if ms1 != ms0 { lemma_reported_push(ms0, (pv[x].0, (k + 1) as usize, pv[x].1), p, e - p); }
+    }
+    // matches that start at s: the first entry is the one, and it is reported now
+    assert forall|e: int| #[trigger] tgt(fm, pat, i, l, s, e) implies reported(ms1, s, e - s) by {
+        if reported(ms0, s, e - s) {
+            if ms1 != ms0 { lemma_reported_push(ms0, (pv[x].0, (k + 1) as usize, pv[x].1), s, e - s); }
+        } else {
+            reveal(tgt);
+            assert(x == 0 && recorded(pv, 0, e - s));
+            let y = choose|y: int| 0 <= y < pv.len() && 0 <= y && (#[trigger] pv[y]).1 == e - s;
+            if y > 0 { assert(pv[0].1 >= pv[y].1); }
+            if pv[0].1 > e - s {
+                // a longer entry occurs, but the match cannot be extended to the right
+                assert(elem_ok(fm, pat, i, s, pv[0]));
+                lemma_exact_size(fm, pat.subrange(s, s + pv[0].1), pv[0].0);
+                lemma_absent_sub(fm, pat, s, s + pv[0].1, s, e + 1);
+                assert(false);
+            }
+            assert(ml == e - s);
+            if k >= 0 { lemma_exact_size(fm, pat.subrange(k, e), fwd); }
+            assert(ms1 == ms0.push((pv[x].0, (k + 1) as usize, pv[x].1)));
+            assert(ms1[ms0.len() as int] == (pv[x].0, (k + 1) as usize, pv[x].1));
+        }
+    }
+    if k >= 0 {
+        assert forall|p: int, e: int| #[trigger] tgt(fm, pat, i, l, p, e) && p <= k implies recorded(c1, 0, e - k) || recorded(pv, x + 1, e - s) by {
+            if recorded(c0, 0, e - k) {
+                let y = choose|y: int| 0 <= y < c0.len() && 0 <= y && (#[trigger] c0[y]).1 == e - k;
+                if c1 != c0 { assert(c1[y] == c0[y]); }
+            } else {
+                assert(recorded(pv, x, e - s));
+                let y = choose|y: int| x <= y < pv.len() && 0 <= y && (#[trigger] pv[y]).1 == e - s;
+                if y == x {
+                    reveal(tgt);
+                    let aw = pat.subrange(k, e);
+                    assert(ml == e - s && ml >= 1);
+                    // the extended word occurs, being part of the match
+                    if absent(fm, aw) { lemma_absent_sub(fm, pat, p, e, k, e); }
+                    lemma_exact_size(fm, aw, fwd);
+                    if c1 == c0 {
+                        // dropped: same size as the last entry kept, which is strictly longer - impossible for a right-maximal match
+                        let c = c0[c0.len() - 1]; let wc = pat.subrange(k, k + c.1);
+                        assert(elem_ok(fm, pat, i, k, c));
+                        if c.1 == ml + 1 { assert(recorded(c0, 0, e - k)); }
+                        else {
+                            assert(wc.subrange(0, aw.len() as int) =~= aw);
+                            lemma_same_size(fm, aw, fwd, wc, c.0);
+                            let a1 = pat.subrange(k, e + 1);
+                            assert(wc.subrange(0, a1.len() as int) =~= a1);
+                            lemma_ext_prefix(fm, wc, a1);
+                            lemma_ext_trans(fm, aw, wc, a1);
+                            if p < k { lemma_glue_ext(fm, pat, p, k, e, e + 1); }
+                            lemma_absent_ext(fm, pat.subrange(p, e), pat.subrange(p, e + 1));
+                            assert(false);
+                        }
+                    } else {
+                        assert(c1[c0.len() as int] == (fwd, (pv[x].1 + 1) as usize));
+                        assert(c1[c0.len() as int].1 == e - k);
+                    }
+                }
+            }
+        }
+    }
+}
 /// an entry (interval, match length) of the work lists: the exact, non-empty bi-interval of pat[start..start+ml], which covers position i
 /// (or the one degenerate entry when pat[i] does not occur at all)
 pub open spec fn elem_ok(fm: &FMIndex, pat: Seq<u8>, i: int, start: int, e: (BiInterval, usize)) -> bool {
@@ -42,6 +525,8 @@ pub open spec fn res_ok(fm: &FMIndex, pat: Seq<u8>, i: int, l: int, m: (BiInterv
     &&& iv.sz() >= 1 && exact(fm, pat.subrange(p, p + len), iv)
     // it cannot be extended to the left
     &&& p == 0 || absent(fm, pat.subrange(p - 1, p + len))
+    // nor to the right
+    &&& rmaxp(fm, pat, p, p + len)
 }
 proof fn lemma_elem_fits(fmd: &FMDIndex, pat: Seq<u8>, i: int, start: int, e: (BiInterval, usize))
     requires elem_ok(fmd.fm(), pat, i, start, e), exists|t: Seq<u8>, pos: Seq<usize>| fmd_of(fmd.fm(), t, pos), pat.len() < 0x7fff_ffff_fff0,
@@ -104,3 +589,60 @@ proof fn lemma_wf_of(fm: &FMIndex, t: Seq<u8>, pos: Seq<usize>)
     }
 }
 
+
+// ---------------- all_smems ----------------
+/// pat[p..e] is a supermaximal exact match of length at least l (covering whatever position)
+pub open spec fn smem(fm: &FMIndex, pat: Seq<u8>, l: int, p: int, e: int) -> bool {
+    &&& 0 <= p < e <= pat.len() && e - p >= l
+    &&& !absent(fm, pat.subrange(p, e))
+    &&& p == 0 || absent(fm, pat.subrange(p - 1, e))
+    &&& rmaxp(fm, pat, p, e)
+}
+proof fn lemma_smem_tgt(fm: &FMIndex, pat: Seq<u8>, i: int, l: int, p: int, e: int)
+    ensures tgt(fm, pat, i, l, p, e) <==> (smem(fm, pat, l, p, e) && p <= i < e)
+{ reveal(tgt); }
+/// m is a supermaximal match (covering some position) of length at least l with its exact bi-interval
+pub open spec fn res_any(fm: &FMIndex, pat: Seq<u8>, l: int, m: (BiInterval, usize, usize)) -> bool { exists|i: int| res_ok(fm, pat, i, l, m) }
+/// all matches that end at or before position i0 have been reported
+pub open spec fn upto(fm: &FMIndex, pat: Seq<u8>, l: int, i0: int, ms: Seq<(BiInterval, usize, usize)>) -> bool {
+    forall|p: int, e: int| #[trigger] smem(fm, pat, l, p, e) && e <= i0 ==> reported(ms, p, e - p)
+}
+proof fn lemma_reported_append(ms: Seq<(BiInterval, usize, usize)>, more: Seq<(BiInterval, usize, usize)>, p: int, len: int)
+    requires reported(ms, p, len) || reported(more, p, len)
+    ensures reported(ms + more, p, len)
+{
+    if reported(ms, p, len) {
+        let y = choose|y: int| 0 <= y < ms.len() && (#[trigger] ms[y]).1 == p && ms[y].2 == len;
+        assert((ms + more)[y] == ms[y]);
+    } else {
+        let y = choose|y: int| 0 <= y < more.len() && (#[trigger] more[y]).1 == p && more[y].2 == len;
+        assert((ms + more)[ms.len() + y] == more[y]);
+    }
+}
+/// one round of all_smems: after the matches covering i0 have been added, everything ending at or before the furthest end is reported
+proof fn lemma_all_step(fm: &FMIndex, pat: Seq<u8>, l: int, i0: int, nx: int, ms: Seq<(BiInterval, usize, usize)>, cs: Seq<(BiInterval, usize, usize)>)
+    requires 0 <= i0 < pat.len(), l >= 1, upto(fm, pat, l, i0, ms),
+        forall|x: int| 0 <= x < cs.len() ==> res_ok(fm, pat, i0, l, #[trigger] cs[x]),
+        forall|p: int, e: int| #[trigger] tgt(fm, pat, i0, l, p, e) ==> reported(cs, p, e - p),
+        nx >= i0 + 1, forall|x: int| 0 <= x < cs.len() ==> (#[trigger] cs[x]).1 + cs[x].2 <= nx,
+        nx == i0 + 1 || exists|x: int| 0 <= x < cs.len() && nx == (#[trigger] cs[x]).1 + cs[x].2,
+    ensures upto(fm, pat, l, nx, ms + cs)
+{
+    assert forall|p: int, e: int| #[trigger] smem(fm, pat, l, p, e) && e <= nx implies reported(ms + cs, p, e - p) by {
+        if e <= i0 { lemma_reported_append(ms, cs, p, e - p); }
+        else if p <= i0 { lemma_smem_tgt(fm, pat, i0, l, p, e); lemma_reported_append(ms, cs, p, e - p); }
+        else {
+            // i0 < p < e <= nx: nx is the end of a reported match that starts at or before i0 and so contains pat[p-1..e]
+            let x = choose|x: int| 0 <= x < cs.len() && nx == (#[trigger] cs[x]).1 + cs[x].2;
+            assert(res_ok(fm, pat, i0, l, cs[x]));
+            let p1 = cs[x].1 as int; let e1 = p1 + cs[x].2;
+            lemma_exact_nonabsent(fm, pat.subrange(p1, e1), cs[x].0);
+            if absent(fm, pat.subrange(p - 1, e)) { lemma_absent_sub(fm, pat, p1, e1, p - 1, e); }
+            assert(false);
+        }
+    }
+}
+proof fn lemma_exact_nonabsent(fm: &FMIndex, w: Seq<u8>, iv: BiInterval)
+    requires exact(fm, w, iv), iv.sz() >= 1, exists|t: Seq<u8>, pos: Seq<usize>| fmd_of(fm, t, pos)
+    ensures !absent(fm, w)
+{ lemma_exact_size(fm, w, iv); }
